@@ -55,6 +55,19 @@ MODULE = Module(
 del contracts["Scheduler._check_jobs_pending_limits"]
 del contracts["Scheduler._preprocess_args.preprocess_value"]
 VERIFY = ["Scheduler._exec_job_main_thread"]
+# ---- a job collapsed into an equal running job keeps its place in the parent's child list: the parent's child call hashes (and so its call
+#      hash) are the same whether the later of two equal calls met a finished call (cache hit, own entry) or a running one (collapse)
+collapse_contracts = {
+ "Job.collapse": dict(where=f"{S}:Job.collapse", params={"self": REF, "other_job": REF},
+    requires=["self.parent_job != None", "exists(i, Int, 0 <= i and i < len(val(self.parent_job).child_jobs) and val(self.parent_job).child_jobs[i] == self)"],
+    lib={"other_job.result_promise.then(": lambda e, n, st, old: T(NONE, "none")},
+    ensures=["len(val(self.parent_job).child_jobs) == len(old(val(self.parent_job).child_jobs))",
+             "forall(j, Int, implies(0 <= j and j < len(old(val(self.parent_job).child_jobs)) and old(val(self.parent_job).child_jobs)[j] != self, "
+             " val(self.parent_job).child_jobs[j] == old(val(self.parent_job).child_jobs)[j]))",
+             "exists(j, Int, 0 <= j and j < len(old(val(self.parent_job).child_jobs)) and old(val(self.parent_job).child_jobs)[j] == self and val(self.parent_job).child_jobs[j] == other_job)"]),
+}
+COLLAPSE_MODULE = Module(fields={"child_jobs": Seq(REF)}, stable={"parent_job": Opt(REF)}, declare_stable=True, contracts=collapse_contracts)
+MODULES = [(MODULE, VERIFY), (COLLAPSE_MODULE, ["Job.collapse"])]
 
 
 def frame_checks(tier, seed):
@@ -65,7 +78,7 @@ def frame_checks(tier, seed):
 
 def bounded_timing(tier, seed):
     from pvc import bounded
-    return [bounded.run(PROPERTY, "limits-and-completion-orders", rule="generated workflows (fan-out over a shared handle, nested calls, plain values) executed with resource limits {1, 2, unlimited} and reversed / interleaved completion "
+    return [bounded.run(PROPERTY, "limits-and-completion-orders", rule="generated workflows (fan-out over a shared handle, nested calls, plain values, equal calls reached through different expressions under one-at-a-time completion orders) executed with resource limits {1, 2, unlimited} and reversed / interleaved completion "
                         "orders of a controllable executor: the returned value, the set of call hashes, the set of argument hashes and the set of recorded handle states are the same in every configuration")]
 
 
